@@ -22,6 +22,9 @@ ArrV(e)   == [t |-> "arr", e |-> e]
 ObjV(f)   == [t |-> "obj", f |-> f]
 EmptyObj  == ObjV([k \in {} |-> Null])
 
+\* a result the properties leave open: the harness only demands that no panic escapes
+Unspec    == [t |-> "any"]
+IsAny(v)  == v.t = "any"
 IsNull(v) == v.t = "null"
 IsErr(v)  == v.t = "err"
 IsNum(v)  == v.t = "num"
